@@ -4,6 +4,7 @@ import (
 	"fmt"
 
 	"go/ast"
+	"go/parser"
 	"go/token"
 	"go/types"
 	"os"
@@ -11,6 +12,7 @@ import (
 	"runtime"
 	"sort"
 	"strings"
+	"sync"
 	"verif.local/gcsim/simrt"
 
 	"golang.org/x/tools/go/packages"
@@ -41,7 +43,70 @@ const loadMode = packages.NeedName |
 	packages.NeedTypes |
 	packages.NeedSyntax |
 	packages.NeedTypesInfo |
-	packages.NeedTypesSizes
+	packages.NeedTypesSizes |
+	// more than the shipped loader asks for today: whatever an edited front-end
+	// reads from a package (its module, embedded files) is there to be read
+	packages.NeedModule |
+	packages.NeedEmbedFiles |
+	packages.NeedEmbedPatterns
+
+// FsetOrder is the file-registration-order seam. go/packages parses the files
+// of a package concurrently, so the order in which files enter the
+// token.FileSet - and with it the relative order of token.Pos values of
+// different files - changes from one process to the next. The corpus loader
+// parses every file itself, in an order it owns, and hands the trees to
+// go/packages.
+type FsetOrder struct {
+	Policy int // 0 sorted by path, 1 reverse, 2 ordered by hash(seed, path)
+	Seed   uint64
+}
+
+const parseMode = parser.AllErrors | parser.ParseComments
+
+type parsedFile struct {
+	f   *ast.File
+	err error
+}
+
+// preparse registers the non-test files of the given directories in the file
+// set in the wanted order and returns a ParseFile hook serving them.
+func preparse(fset *token.FileSet, dirs []string, ord FsetOrder) func(*token.FileSet, string, []byte) (*ast.File, error) {
+	var paths []string
+	for _, d := range dirs {
+		gos, _ := filepath.Glob(filepath.Join(d, "*.go"))
+		for _, g := range gos {
+			if !strings.HasSuffix(g, "_test.go") {
+				paths = append(paths, g)
+			}
+		}
+	}
+	sort.Strings(paths)
+	switch ord.Policy {
+	case 1:
+		for i, j := 0, len(paths)-1; i < j; i, j = i+1, j-1 {
+			paths[i], paths[j] = paths[j], paths[i]
+		}
+	case 2:
+		key := func(p string) uint64 { return simrt.NewRand(ord.Seed, "fset/"+p).Uint64() }
+		sort.SliceStable(paths, func(i, j int) bool { return key(paths[i]) < key(paths[j]) })
+	}
+	var mu sync.Mutex
+	cache := map[string]*parsedFile{}
+	for _, p := range paths {
+		f, err := parser.ParseFile(fset, p, nil, parseMode)
+		cache[p] = &parsedFile{f, err}
+	}
+	return func(fs *token.FileSet, filename string, src []byte) (*ast.File, error) {
+		mu.Lock()
+		pf := cache[filename]
+		delete(cache, filename) // a tree is handed out once
+		mu.Unlock()
+		if pf != nil && fs == fset {
+			return pf.f, pf.err
+		}
+		return parser.ParseFile(fs, filename, src, parseMode)
+	}
+}
 
 // corpusDirs lists the package directories of the corpus: every maintainer
 // example package, the odd-syntax sanity package and the hand-written corpus.
@@ -70,7 +135,7 @@ func corpusDirs(repo string) (map[string]string, error) {
 }
 
 // LoadCorpus loads the named packages (all when names is empty).
-func LoadCorpus(repo string, names []string, extra map[string]string) (*Corpus, error) {
+func LoadCorpus(repo string, names []string, extra map[string]string, ord FsetOrder) (*Corpus, error) {
 	dirs, err := corpusDirs(repo)
 	if err != nil {
 		return nil, err
@@ -96,6 +161,7 @@ func LoadCorpus(repo string, names []string, extra map[string]string) (*Corpus, 
 		byDir[d] = n
 		repoPatterns = append(repoPatterns, d)
 	}
+	parseFile := preparse(c.Fset, repoPatterns, ord)
 	var pkgs []*packages.Package
 	var own, ext []string
 	for _, d := range repoPatterns {
@@ -106,7 +172,7 @@ func LoadCorpus(repo string, names []string, extra map[string]string) (*Corpus, 
 		}
 	}
 	if len(own) > 0 {
-		cfg := &packages.Config{Mode: loadMode, Tests: false, Fset: c.Fset, Dir: filepath.Join(repo, "checkers")}
+		cfg := &packages.Config{Mode: loadMode, Tests: false, Fset: c.Fset, Dir: filepath.Join(repo, "checkers"), ParseFile: parseFile}
 		ps, err := packages.Load(cfg, own...)
 		if err != nil {
 			return nil, fmt.Errorf("corpus load: %w", err)
@@ -131,7 +197,7 @@ func LoadCorpus(repo string, names []string, extra map[string]string) (*Corpus, 
 	}
 	sort.Strings(roots)
 	for _, root := range roots {
-		cfg := &packages.Config{Mode: loadMode, Tests: false, Fset: c.Fset, Dir: root}
+		cfg := &packages.Config{Mode: loadMode, Tests: false, Fset: c.Fset, Dir: root, ParseFile: parseFile}
 		ps, err := packages.Load(cfg, byRoot[root]...)
 		if err != nil {
 			return nil, fmt.Errorf("corpus load (hand-written, %s): %w", root, err)
